@@ -572,8 +572,24 @@ fn sem_transmute() -> Option<String> {
     if r.is_ok() { return Some("unflatten of 7 elements into 3 chunks of 2 returns (one element silently lost)".into()); }
     None
 }
+/// a fresh by-value iterator holds all N elements: small N with sized elements, and lengths beyond 2^32 with zero-sized elements (no memory needed)
+fn sem_into_iter() -> Option<String> {
+    fn one<N: ArrayLength>() -> Option<String> {
+        let a: GenericArray<(), N> = GenericArray::generate(|_| ());
+        let mut it = a.into_iter();
+        let n = N::USIZE;
+        if it.len() != n || it.size_hint() != (n, Some(n)) || it.as_slice().len() != n { return Some(format!("into_iter of GenericArray<(), U{n}>: len() = {}, size_hint() = {:?}", it.len(), it.size_hint())); }
+        if n > 0 && (it.next().is_none() || it.len() != n - 1) { return Some(format!("into_iter of GenericArray<(), U{n}>: next / next_back disagree with a queue of {n} elements")); }
+        std::mem::forget(it);      // nothing to drop; an unoptimised slice drop loop over 2^32 unit elements would take minutes
+        None
+    }
+    one::<U0>().or_else(one::<U1>).or_else(one::<U2>).or_else(one::<U5>).or_else(one::<U65536>)      // (lengths of 2^32 and more: the unoptimised build of this probe did not finish within 30 s - not swept)
+        .or_else(|| { let a: GenericArray<u32, U5> = GenericArray::generate(|i| i as u32); let it = a.into_iter(); if it.len() != 5 { Some("into_iter of GenericArray<u32, U5>: len() != 5".into()) } else { None } })
+}
+
 fn semantic(sc: &str) -> Option<String> {
     if sc.starts_with("hex") { return sem_hex(); }
+    if sc == "iter.into_iter" { return sem_into_iter(); }
     if sc.starts_with("const_transmute") {
         let quiet = std::panic::take_hook();
         std::panic::set_hook(Box::new(|_| {}));
